@@ -354,6 +354,12 @@ impl Engine for Exact32Engine {
             return Ok(match r {
                 Caught::Ok(o) => match support::check(&spec, &o) {
                     Some((c, d)) => vec![Violation { class: c.into(), detail: d, sig: sig_for(&spec, c, tags), case: case.clone() }],
+                    None if rng.pos != 1 => vec![Violation {
+                        class: "not-single-draw".into(),
+                        detail: format!("consumed {} words", rng.pos),
+                        sig: sig_for(&spec, "not-single-draw", tags),
+                        case: case.clone(),
+                    }],
                     None => vec![],
                 },
                 Caught::Panic { msg, .. } => vec![Violation { class: "panic".into(), detail: msg, sig: sig_for(&spec, "panic", tags), case: case.clone() }],
